@@ -136,6 +136,21 @@ def mob_correspondence(ctx, n):
 
 
 # ------------------------------------------------------------------ implementation-side monitor
+@__import__("functools").lru_cache(maxsize=None)
+def _component_class(name):
+    import importlib
+    import pkgutil
+    import simaple.simulate.component.common as cm
+    import simaple.simulate.component.specific as sp
+    for pkg in (cm, sp):
+        for m in pkgutil.iter_modules(pkg.__path__):
+            mod = importlib.import_module(pkg.__name__ + "." + m.name)
+            c = getattr(mod, name, None)
+            if inspect.isclass(c) and c.__module__ == mod.__name__:
+                return c
+    raise KeyError(name)
+
+
 def _dump(x):
     if hasattr(x, "model_dump"):
         x = x.model_dump()
@@ -411,7 +426,92 @@ def err_of(log):
     return " ".join(log[max(0, i - 300):i + 500].split()) if i >= 0 else log[-500:]
 
 
-def run_prop(ctx, props_file, assume, known_match, witness_replay, rule, own_purity=False, extra_targets=()):
+def focus_on_difference(prop, d):
+    """A correspondence difference names a component (class + dump) and a state: evaluate the property AS STATED directly on
+    the implementation at exactly that point.  Returns a finding (dict) or None.  Works for every component class (common and
+    job-specific): the class is found by name, the state type is read off the reducer's signature."""
+    if not isinstance(d.get("component"), dict) or not isinstance(d.get("state"), dict) or not d.get("class"):
+        return None
+    try:
+        cls = _component_class(d["class"])
+        comp = cls.model_validate(d["component"])
+        reds = sorted(getattr(cls, "__reducers__", ()))
+        probe = d.get("reducer") if d.get("reducer") in reds else ("use" if "use" in reds else reds[0])
+        from simaple.simulate.component.base import ComponentMethodWrapper
+        st_cls = ComponentMethodWrapper(getattr(comp, probe)).get_state_type()
+        state = st_cls.model_validate(d["state"])
+    except Exception:
+        return None
+
+    def rejected(evs):
+        return any(e.get("tag") == "global.reject" for e in evs)
+
+    def call(red, payload, st):
+        out, evs = getattr(comp, red)(payload, st.model_copy(deep=True))
+        evs = [] if evs is None else (evs if isinstance(evs, list) else [evs])
+        return out, evs
+    base = dict(component=d["class"], name=comp.name, component_dump=d["component"], state=d["state"])
+    try:
+        if prop == "C10":
+            if not hasattr(comp, "validity"):
+                return None
+            v = comp.validity(state.model_copy(deep=True))
+            if v.time_left < 0:
+                return dict(base, prop=prop, reducer="validity", what="validity reports a negative remaining time", observed=v.model_dump())
+            if v.valid and "use" in reds:
+                _out, evs = call("use", None, state)
+                if rejected(evs):
+                    return dict(base, prop=prop, reducer="use", what="validity reports the skill usable but use is rejected",
+                                observed={"validity": v.model_dump(), "events": [e.get("tag") for e in evs]})
+        elif prop == "C07":
+            red = d.get("reducer")
+            if red in reds:
+                out, evs = call(red, d.get("payload"), state)
+                if rejected(evs):
+                    if len(evs) != 1:
+                        return dict(base, prop=prop, reducer=red, what="a rejection is accompanied by other events",
+                                    observed=[e.get("tag") for e in evs], payload=d.get("payload"))
+                    if out.model_dump() != state.model_dump():
+                        return dict(base, prop=prop, reducer=red, what="a rejected action changed the state", payload=d.get("payload"),
+                                    observed=out.model_dump())
+        elif prop == "C09" and "elapse" in reds:
+            t = d.get("payload") if d.get("reducer") == "elapse" and isinstance(d.get("payload"), (int, float)) else 1000.0
+            for a in (t / 4.0, t / 2.0, 30.0):
+                b = t - a
+                if a <= 0 or b <= 0:
+                    continue
+                s1, e1 = call("elapse", a, state)
+                s2, e2 = call("elapse", b, s1)
+                s3, e3 = call("elapse", t, state)
+
+                def agg(evs):
+                    acc = collections.Counter()
+                    for e in evs:
+                        if e.get("tag") in ("global.damage", "global.dot"):
+                            pl = e.get("payload") or {}
+                            acc[(e.get("name"), e.get("tag"), pl.get("damage"), json.dumps(pl.get("modifier"), sort_keys=True))] += pl.get("hit", 0)
+                    return {k: v for k, v in acc.items() if v}
+                views = [vn for vn in H.VIEWS if hasattr(comp, vn)]
+                vs2 = {vn: _dump(getattr(comp, vn)(s2.model_copy(deep=True))) for vn in views}
+                vs3 = {vn: _dump(getattr(comp, vn)(s3.model_copy(deep=True))) for vn in views}
+                if agg(e1 + e2) != agg(e3) or vs2 != vs3:
+                    return dict(base, prop=prop, reducer="elapse", what="elapse(a) then elapse(b) differs from elapse(a+b)", a=a, b=b,
+                                observed={"ticks_split": [list(map(str, k)) + [v] for k, v in agg(e1 + e2).items()],
+                                          "ticks_once": [list(map(str, k)) + [v] for k, v in agg(e3).items()], "views_split": vs2, "views_once": vs3})
+    except Exception as ex:
+        if prop == "C10":
+            return dict(base, prop=prop, reducer="view", what="a status view or use raised %r at this state" % (ex,))
+    return None
+
+
+def _dump(x):
+    try:
+        return x.model_dump() if hasattr(x, "model_dump") else x
+    except Exception:
+        return repr(x)
+
+
+def run_prop(ctx, props_file, assume, known_match, witness_replay, rule, own_purity=False, extra_targets=(), hook=None):
     """known_match(entry, finding) -> bool ; witness_replay(entry) -> (still_failing: bool, detail)"""
     from lib.vf import open_known
     prop = ctx.prop
@@ -453,6 +553,15 @@ def run_prop(ctx, props_file, assume, known_match, witness_replay, rule, own_pur
     mine = [f for f in findings if f["prop"] == prop]
     if own_purity:
         mine += [dict(p, prop=prop, component=p["class"]) for p in purity]
+    # a correspondence difference focuses the search: the property as stated, evaluated at the differing component/state
+    focused = 0
+    for d in diffs[:40]:
+        f = focus_on_difference(prop, d)
+        if f is not None:
+            focused += 1
+            mine.append(f)
+            if focused >= 3:
+                break
     # correspondence differences on a reducer whose own result violates the property show up in `mine` via the monitor or purity
     ctx.cov["impl_search"] = dict(mstats, findings_for_this_property=len(mine),
                                   findings_for_other_properties=len(findings) - len([f for f in findings if f["prop"] == prop]))
@@ -464,6 +573,8 @@ def run_prop(ctx, props_file, assume, known_match, witness_replay, rule, own_pur
     for ext in extensions():
         modelled |= set(getattr(ext, "CLASSES", []))
     ctx.cov["unmodelled"] = sorted(k for k in mstats.get("classes", {}) if k not in modelled)
+    if hook is not None:       # property-specific extra step returning more findings (C07: the dispatch / store layer)
+        mine += hook(ctx)
     # ---- known findings
     opens = open_known(prop)
     unmatched = []
